@@ -31,14 +31,15 @@ Definition pp_ok (c : cfg) (st : pp) : Prop :=
   l_chaser (get_level 0 (p_levels st)) = false /\
   ((0 < p_hwm st)%nat -> l_chaser (get_level (p_hwm st) (p_levels st)) = true) /\
   (p_hwm st <= c_retry_max c)%nat /\
-  (forall i, (p_hwm st <= i)%nat -> l_buf (get_level i (p_levels st)) = []).
+  (forall i, (p_hwm st <= i)%nat -> l_buf (get_level i (p_levels st)) = []) /\
+  (forall i, (p_hwm st < i)%nat -> l_chaser (get_level i (p_levels st)) = false).
 
 Lemma repeat_get n i : get_level i (repeat level0 n) = level0.
 Proof. unfold get_level. revert i; induction n; intros [|i]; cbn; auto. Qed.
 Lemma pp_ok_fresh c hb ld : pp_ok c (mkPp 0%nat (repeat level0 (S (c_retry_max c))) hb ld).
 Proof.
   unfold pp_ok. cbn [p_levels p_hwm]. rewrite repeat_length. split; [reflexivity|]. split; [rewrite repeat_get; reflexivity|].
-  split; [intros H; lia|]. split; [lia|]. intros i _. rewrite repeat_get. reflexivity.
+  split; [intros H; lia|]. split; [lia|]. split; intros i _; rewrite repeat_get; reflexivity.
 Qed.
 Lemma pp_ok_init c t p l : pp_ok c (fst (pp_init c t p l)).
 Proof. destruct l; cbn [pp_init fst]; [|unfold pp_init_state]; apply pp_ok_fresh. Qed.
@@ -110,6 +111,30 @@ Proof.
       apply REC, IH.
 Qed.
 
+(* the levels flushRetryBuffers passes without stopping are not expecting a chaser *)
+Lemma flush_skips c t p : forall h hasbp leader lv stamp ls,
+  let '(h', _, _, _) := fst (flush c t p h hasbp leader lv stamp ls) in
+  forall i, (h' < i < h)%nat -> l_chaser (get_level i lv) = false.
+Proof.
+  induction h as [|h' IH]; intros hasbp leader lv stamp ls; [cbn; intros i Hi; lia|].
+  cbn [flush].
+  assert (GC : forall i, l_chaser (get_level i (set_buf h' [] lv)) = l_chaser (get_level i lv)).
+  { intros i. unfold set_buf. rewrite get_upd_level. destruct ((i =? h')%nat && (h' <? length lv)%nat); reflexivity. }
+  assert (REC : l_chaser (get_level h' lv) || (h' =? 0)%nat = false -> forall hb1 ld1 st1 ls1 effs1,
+    let '(h'', _, _, _) := fst (let '(res, effs2) := flush c t p h' hb1 ld1 (set_buf h' [] lv) st1 ls1 in (res, effs1 ++ effs2)) in
+    forall i, (h'' < i < S h')%nat -> l_chaser (get_level i lv) = false).
+  { intros Estop hb1 ld1 st1 ls1 effs1. specialize (IH hb1 ld1 (set_buf h' [] lv) st1 ls1).
+    destruct (flush c t p h' hb1 ld1 (set_buf h' [] lv) st1 ls1) as [[[[h'' hb] ld] lv''] effs2]. cbn [fst] in *.
+    intros i Hi. destruct (Nat.eq_dec i h') as [->|Ne]; [apply orb_false_iff in Estop as [E _]; exact E|].
+    rewrite <- GC. apply IH. lia. }
+  destruct (flush_sends c t p (fst stamp) (snd stamp) (l_buf (get_level h' lv))) as [fe sq'].
+  destruct hasbp.
+  - destruct (l_chaser (get_level h' lv) || (h' =? 0)%nat) eqn:Estop; [cbn [fst]; intros i Hi; lia|]. apply REC. reflexivity.
+  - destruct (next_lres ls) as [[b|e] r].
+    + destruct (l_chaser (get_level h' lv) || (h' =? 0)%nat) eqn:Estop; [cbn [fst]; intros i Hi; lia|]. apply REC. reflexivity.
+    + destruct (l_chaser (get_level h' lv) || (h' =? 0)%nat) eqn:Estop; [cbn [fst]; intros i Hi; lia|]. apply REC. reflexivity.
+Qed.
+
 Lemma pp_forward_levels c t p st m stamp ls pre :
   p_levels (fst (pp_forward c t p st m stamp ls pre)) = p_levels st /\ p_hwm (fst (pp_forward c t p st m stamp ls pre)) = p_hwm st.
 Proof.
@@ -121,25 +146,30 @@ Qed.
 Lemma pp_ok_step c t p st m ab stamp ls : pp_ok c st ->
   has_crash (snd (pp_step c t p st m ab stamp ls)) = false -> pp_ok c (fst (pp_step c t p st m ab stamp ls)).
 Proof.
-  intros (L & C0 & CH & HM & BE). unfold pp_step.
+  intros (L & C0 & CH & HM & BE & TOP). unfold pp_step.
   set (st1 := if p_has_bp st && ab then _ else st).
   assert (E1 : p_levels st1 = p_levels st /\ p_hwm st1 = p_hwm st) by (subst st1; destruct (p_has_bp st && ab); split; reflexivity).
   destruct E1 as [EL EH].
   set (e1 := if p_has_bp st && ab then [EUnref] else []).
+  assert (SAME : forall s2, p_levels s2 = p_levels st -> p_hwm s2 = p_hwm st -> pp_ok c s2).
+  { intros s2 A B. unfold pp_ok. rewrite A, B. repeat split; assumption. }
   destruct (p_hwm st1 <? m_retries m)%nat eqn:Enew.
-  - (* newHighWatermark *)
+  - (* newHighWatermark, behind the guard *)
     apply Nat.ltb_lt in Enew.
-    destruct (c_retry_max c <? m_retries m)%nat eqn:Emax; [cbn [snd]; rewrite has_crash_app; cbn; rewrite orb_true_r; discriminate|].
+    destruct (pp_guard c t p st1 ls) as [[[stg eg] ls1]|e] eqn:G; [|intros _; cbn [fst]; apply SAME; assumption].
+    destruct (pp_guard_inl (fun _ => 0) _ _ _ _ _ _ _ _ G) as (GL & GH & _ & _ & GC & _).
+    destruct (c_retry_max c <? m_retries m)%nat eqn:Emax; [cbn [snd]; rewrite !has_crash_app; simpl; rewrite !orb_true_r; discriminate|].
     apply Nat.ltb_ge in Emax.
-    destruct (negb (p_has_bp st1)); [cbn [snd]; rewrite has_crash_app; cbn; rewrite orb_true_r; discriminate|].
-    intros _. match goal with |- pp_ok c (fst (pp_forward c t p ?s2 m stamp ls ?pre)) => destruct (pp_forward_levels c t p s2 m stamp ls pre) as [FL FH] end.
-    unfold pp_ok. rewrite FL, FH. cbn [p_levels p_hwm]. rewrite ?EL, ?EH in *.
+    intros _. match goal with |- pp_ok c (fst (pp_forward c t p ?s2 m stamp ls1 ?pre)) => destruct (pp_forward_levels c t p s2 m stamp ls1 pre) as [FL FH] end.
+    unfold pp_ok. rewrite FL, FH. cbn [p_levels p_hwm]. rewrite ?GL, ?GH, ?EL, ?EH in *.
     unfold set_chaser. rewrite upd_level_length.
     split; [exact L|]. split.
     + rewrite get_upd_level. destruct ((0 =? m_retries m)%nat && _) eqn:E; [apply andb_true_iff in E as [E _]; apply Nat.eqb_eq in E; lia|exact C0].
     + split.
       * intros _. rewrite get_upd_level, Nat.eqb_refl. cbn [andb]. assert (X : (m_retries m <? length (p_levels st))%nat = true) by (apply Nat.ltb_lt; lia). rewrite X. reflexivity.
-      * split; [exact Emax|]. intros i Hi. rewrite get_upd_level. destruct ((i =? m_retries m)%nat && _); cbn [l_buf]; apply BE; lia.
+      * split; [exact Emax|]. split.
+        -- intros i Hi. rewrite get_upd_level. destruct ((i =? m_retries m)%nat && _); cbn [l_buf]; apply BE; lia.
+        -- intros i Hi. rewrite get_upd_level. destruct ((i =? m_retries m)%nat) eqn:E; [apply Nat.eqb_eq in E; lia|]. cbn [andb]. apply TOP. lia.
   - apply Nat.ltb_ge in Enew.
     destruct (0 <? p_hwm st1)%nat eqn:Epos.
     + apply Nat.ltb_lt in Epos.
@@ -152,15 +182,20 @@ Proof.
            ++ rewrite get_upd_level. destruct ((0 =? m_retries m)%nat && _); [reflexivity|exact C0].
            ++ split.
               ** intros Hp. rewrite get_upd_level. destruct ((p_hwm st =? m_retries m)%nat) eqn:E; [apply Nat.eqb_eq in E; lia|]. cbn [andb]. apply CH, Hp.
-              ** split; [exact HM|]. intros i Hi. rewrite get_upd_level. destruct ((i =? m_retries m)%nat && _); cbn [l_buf]; apply BE; lia.
+              ** split; [exact HM|]. split.
+                 --- intros i Hi. rewrite get_upd_level. destruct ((i =? m_retries m)%nat && _); cbn [l_buf]; apply BE; lia.
+                 --- intros i Hi. rewrite get_upd_level. destruct ((i =? m_retries m)%nat && _); [reflexivity|apply TOP, Hi].
         -- unfold push_buf. rewrite upd_level_length, ?EL, ?EH. split; [exact L|]. split.
            ++ rewrite get_upd_level. destruct ((0 =? m_retries m)%nat && _); cbn [l_chaser]; exact C0.
            ++ split.
               ** intros Hp. rewrite get_upd_level. destruct ((p_hwm st =? m_retries m)%nat && _); cbn [l_chaser]; apply CH, Hp.
-              ** split; [exact HM|]. intros i Hi. rewrite get_upd_level. destruct ((i =? m_retries m)%nat) eqn:E; [apply Nat.eqb_eq in E; lia|]. cbn [andb]. apply BE, Hi.
+              ** split; [exact HM|]. split.
+                 --- intros i Hi. rewrite get_upd_level. destruct ((i =? m_retries m)%nat) eqn:E; [apply Nat.eqb_eq in E; lia|]. cbn [andb]. apply BE, Hi.
+                 --- intros i Hi. rewrite get_upd_level. destruct ((i =? m_retries m)%nat && _); cbn [l_chaser]; apply TOP, Hi.
       * apply Nat.ltb_ge in Elow. destruct (is_fin m).
         -- (* the chaser of the current level: flush *)
            pose proof (flush_levels c t p (p_hwm st1) (p_has_bp st1) (p_leader st1) (set_chaser (p_hwm st1) false (p_levels st1)) stamp ls) as FLv.
+           pose proof (flush_skips c t p (p_hwm st1) (p_has_bp st1) (p_leader st1) (set_chaser (p_hwm st1) false (p_levels st1)) stamp ls) as FSk.
            destruct (flush c t p (p_hwm st1) (p_has_bp st1) (p_leader st1) _ stamp ls) as [[[[h' hasbp] leader] lv'] effs]. cbn [fst snd] in *.
            intros Hc. rewrite !has_crash_app in Hc. apply orb_false_iff in Hc as [_ Hc]. apply orb_false_iff in Hc as [Hc _].
            destruct (FLv Hc) as (A & B & Cc & D & E & F). rewrite ?EL, ?EH in *.
@@ -174,12 +209,18 @@ Proof.
            ++ rewrite Cc, SC. destruct ((0 =? p_hwm st)%nat && _); [reflexivity|exact C0].
            ++ split.
               ** intros Hp. destruct D as [D|D]; [|lia]. rewrite Cc. exact D.
-              ** split; [lia|]. intros i Hi. destruct (Nat.lt_ge_cases i (p_hwm st)) as [Lt|Ge]; [apply E; lia|].
-                 rewrite F by lia. rewrite SBf. apply BE, Ge.
+              ** split; [lia|]. split.
+                 --- intros i Hi. destruct (Nat.lt_ge_cases i (p_hwm st)) as [Lt|Ge]; [apply E; lia|].
+                     rewrite F by lia. rewrite SBf. apply BE, Ge.
+                 --- intros i Hi. rewrite Cc. destruct (Nat.lt_ge_cases i (p_hwm st)) as [Lt|Ge]; [apply FSk; lia|].
+                     rewrite SC. destruct ((i =? p_hwm st)%nat) eqn:Ei.
+                     +++ apply Nat.eqb_eq in Ei. subst i. destruct (p_hwm st <? length (p_levels st))%nat eqn:El; [reflexivity|].
+                         cbn [andb]. apply Nat.ltb_ge in El. unfold get_level. rewrite nth_overflow by exact El. reflexivity.
+                     +++ cbn [andb]. apply Nat.eqb_neq in Ei. apply TOP. lia.
         -- intros _. match goal with |- pp_ok c (fst (pp_forward c t p ?s2 m stamp ls ?pre)) => destruct (pp_forward_levels c t p s2 m stamp ls pre) as [FL FH] end.
-           unfold pp_ok. rewrite FL, FH, EL, EH. repeat split; assumption.
+           apply SAME; congruence.
     + intros _. match goal with |- pp_ok c (fst (pp_forward c t p ?s2 m stamp ls ?pre)) => destruct (pp_forward_levels c t p s2 m stamp ls pre) as [FL FH] end.
-      unfold pp_ok. rewrite FL, FH, EL, EH. repeat split; assumption.
+      apply SAME; congruence.
 Qed.
 
 (* ================================================================ frames: worker states and queues under effects *)
@@ -312,23 +353,26 @@ Lemma pp_step_chasers c t p st m ab stamp ls h : pp_ok c st ->
   (h = m_retries m /\ (1 <= h)%nat /\ In (ESend DCur (marker c t p F_FIN (h - 1)%nat)) (snd (pp_step c t p st m ab stamp ls))) \/
   (l_chaser (get_level h (p_levels st)) = true /\ (is_fin m = true -> m_retries m <> h)).
 Proof.
-  intros (L & C0 & CH & HM & BE). unfold pp_step.
+  intros (L & C0 & CH & HM & BE & TOP). unfold pp_step.
   set (st1 := if p_has_bp st && ab then _ else st).
   assert (E1 : p_levels st1 = p_levels st /\ p_hwm st1 = p_hwm st) by (subst st1; destruct (p_has_bp st && ab); split; reflexivity).
   destruct E1 as [EL EH].
   set (e1 := if p_has_bp st && ab then [EUnref] else []).
   destruct (p_hwm st1 <? m_retries m)%nat eqn:Enew.
   - apply Nat.ltb_lt in Enew.
-    destruct (c_retry_max c <? m_retries m)%nat eqn:Emax; [cbn [snd]; rewrite has_crash_app; cbn; rewrite orb_true_r; discriminate|].
+    destruct (pp_guard c t p st1 ls) as [[[stg eg] ls1]|e] eqn:G.
+    2:{ intros _. cbn [fst]. rewrite EL. intros Hc. right. split; [exact Hc|]. intros _ Hr.
+        rewrite TOP in Hc by lia. discriminate. }
+    destruct (pp_guard_inl (fun _ => 0) _ _ _ _ _ _ _ _ G) as (GL & GH & _ & _ & GC & _).
+    destruct (c_retry_max c <? m_retries m)%nat eqn:Emax; [cbn [snd]; rewrite !has_crash_app; simpl; rewrite !orb_true_r; discriminate|].
     apply Nat.ltb_ge in Emax.
-    destruct (negb (p_has_bp st1)); [cbn [snd]; rewrite has_crash_app; cbn; rewrite orb_true_r; discriminate|].
     intros _.
-    match goal with |- context [pp_forward c t p ?s2 m stamp ls ?pre] =>
-      destruct (pp_forward_levels c t p s2 m stamp ls pre) as [FL _];
-      assert (FI : In (ESend DCur (marker c t p F_FIN (m_retries m - 1)%nat)) (snd (pp_forward c t p s2 m stamp ls pre)))
-        by (apply pp_forward_in; apply in_or_app; right; right; left; reflexivity);
-      destruct (pp_forward c t p s2 m stamp ls pre) as [stf ef] end.
-    cbn [fst snd] in *. rewrite FL. cbn [p_levels]. rewrite EL. unfold set_chaser. rewrite get_upd_level.
+    match goal with |- context [pp_forward c t p ?s2 m stamp ls1 ?pre] =>
+      destruct (pp_forward_levels c t p s2 m stamp ls1 pre) as [FL _];
+      assert (FI : In (ESend DCur (marker c t p F_FIN (m_retries m - 1)%nat)) (snd (pp_forward c t p s2 m stamp ls1 pre)))
+        by (apply pp_forward_in; apply in_or_app; right; apply in_or_app; right; right; left; reflexivity);
+      destruct (pp_forward c t p s2 m stamp ls1 pre) as [stf ef] end.
+    cbn [fst snd] in *. rewrite FL. cbn [p_levels]. rewrite GL, EL. unfold set_chaser. rewrite get_upd_level.
     destruct (h =? m_retries m)%nat eqn:E.
     + apply Nat.eqb_eq in E. intros _. left. split; [exact E|]. split; [lia|]. subst h. exact FI.
     + cbn [andb]. intros Hc. right. split; [exact Hc|]. intros _ Hr. apply Nat.eqb_neq in E. congruence.
